@@ -296,6 +296,8 @@ class ObsScenario(NetScenario):
             st.terminal = True
             live = self.live(st)
             st.final_from = ("error", len(w.sent))
+            st.finals = getattr(st, "finals", {})
+            st.finals["unsuccessful notification"] = st.final_from
             st.res.updated_state(Message(code=codes.INTERNAL_SERVER_ERROR, payload=b"gone"))
             w.loop.settle()
             for r in live:
@@ -304,6 +306,8 @@ class ObsScenario(NetScenario):
             # (a "last" mark is sticky: plain triggers that follow and get coalesced with it do not undo it)
             live = self.live(st)
             st.final_from = ("last", len(w.sent))
+            st.finals = getattr(st, "finals", {})
+            st.finals["last notification"] = st.final_from
             obsv = st.res._observations
             for o in (list(obsv.values()) if isinstance(obsv, dict) else list(obsv)):
                 o.trigger(None, is_last=True)
@@ -425,6 +429,8 @@ class ObsScenario(NetScenario):
             for r in st.regs:
                 if r.ended is None or r.ended[0] not in ("unsuccessful notification", "last notification"):
                     continue
+                # (each registration is judged by the trigger that ended it - there can be one of either kind in a run)
+                fin = getattr(st, "finals", {}).get(r.ended[0], fin)
                 got = []
                 seen = set()
                 for i, sdg in enumerate(w.sent):
